@@ -1,4 +1,4 @@
 SPECIFICATION SpecF
-CONSTANTS NSync=3 MaxClock=1 RetentionEnabled=TRUE Fine=TRUE Variant="m_pubfirst"
+CONSTANTS NSync=3 MaxClock=1 RetentionEnabled=TRUE Fine=TRUE Variant="m_pubfirst" Fixes={}
 INVARIANTS NeverAhead NoSkip SidecarAfterApply Converges NoStallH ResumeAcceptedH ResumeAfterKillH
 CHECK_DEADLOCK FALSE
